@@ -202,7 +202,8 @@ def walk_stmts(stmts) -> Iterator[ast.AST]:
 class Project:
   """All analysed modules of the repo, with resolution helpers."""
 
-  def __init__(self, repo: str = None, include_all: bool = True):
+  def __init__(self, repo: str = None, include_all: bool = True,
+               expand=False):
     global REPO
     self.repo = repo or REPO
     REPO = self.repo  # Module.relpath is relative to the analysed tree
@@ -212,6 +213,13 @@ class Project:
     self.files_parsed = 0
     self._load()
     self._link()
+    self.inlined: List[str] = []
+    if expand:
+      # helper-expanded view: see fdlstatic/inline.py.  expand is True (all
+      # functions) or a collection of function qualnames to expand calls in.
+      from fdlstatic import inline  # pylint: disable=g-import-not-at-top
+      self.inlined = inline.Inliner(
+          self, None if expand is True else list(expand)).run().sites
 
   # ---------------------------------------------------------------- loading
   def _load(self):
